@@ -1,6 +1,10 @@
 package props
 
 import (
+	"fmt"
+	"os"
+	"os/exec"
+	"strconv"
 	"strings"
 	"testing"
 
@@ -20,7 +24,7 @@ var hostileInts = []string{"0", "-0", "00", "007", "-1", "9223372036854775807", 
 // mutate applies one token- or byte-level mutation to a valid expression.
 func mutate(t *rapid.T, text string) (string, string) {
 	spans, ok := ast.TokenSpans(text)
-	kind := rapid.IntRange(0, 12).Draw(t, "mutation")
+	kind := rapid.IntRange(0, 15).Draw(t, "mutation")
 	if !ok || len(spans) == 0 {
 		kind = 9
 	}
@@ -126,6 +130,33 @@ func mutate(t *rapid.T, text string) (string, string) {
 		return strings.Replace(s, rep[0], rep[1], 1), "whitespace"
 	case 11: // tokens glued without white space
 		return strings.Join(spans, ""), "glue"
+	case 13, 14: // a character of some Unicode class put into, before or after a token
+		// (identifiers, numbers, keywords and operators are ASCII-only outside
+		// quotes; classification by unicode.IsDigit / IsLetter / IsSpace
+		// instead of by ASCII range would accept these)
+		i := pos()
+		out := append([]string{}, spans...)
+		rs := []rune(out[i])
+		at := rapid.IntRange(0, len(rs)).Draw(t, "runeat")
+		ch := gen.Pick(t, "unichar", []string{
+			"\u0663", "\u0967", "\uff13", "\U0001d7d8", "\u00b2", "\u00bd", "\u2167", // digits and numbers (Nd, No, Nl)
+			"\u00e9", "\u00c9", "\u00aa", "\u03b1", "\u65e5", "\u02b0", "\uff41", "\u0131", "\u212a", // letters (Ll, Lu, Lo, Lm; fullwidth a, dotless i, Kelvin sign)
+			"\u0301", "\u20e3", "\u203f", "\uff3f", // marks and connector punctuation
+			"\u00a0", "\u2003", "\u3000", "\u0085", "\u2028", "\u000b", "\u000c", // spaces that are not JSON / JMESPath white space
+			"\ufeff", "\u200b", "\u200d", "\u00ad", "\u2060", // format characters
+			"\uff0e", "\uff0a", "\uff5c", "\u2016", "\uff06", "\uff20", "\uff04", "\u2018", "\u2019", "\u201c", "\u201d", "\uff40", "\u2260", "\u2264", "\u2265", // look-alikes of operators and quotes
+		})
+		out[i] = string(rs[:at]) + ch + string(rs[at:])
+		if rapid.Bool().Draw(t, "glued") {
+			return strings.Join(out, ""), "unicode-char"
+		}
+		return join(out), "unicode-char"
+	case 15: // a character before or after the whole expression
+		ch := gen.Pick(t, "edgechar", []string{"\ufeff", "\u00a0", "\u2028", "\u0085", "\u000b", "\u000c", "\u3000", "\u200b", "\x00", "\x1a", "\x7f", ";", "#", "\ufffe", "\uffff", "\xef\xbb", "\xef\xbb\xbf\xef\xbb\xbf"})
+		if rapid.Bool().Draw(t, "leading") {
+			return ch + text, "edge-char"
+		}
+		return text + ch, "edge-char"
 	}
 	return join(spans), "identity"
 }
@@ -263,4 +294,115 @@ func init() {
 		return ""
 	}
 	_ = jv.Null
+}
+
+// C04 (deep): the grammar puts no bound on nesting; every recursive construct
+// nested 10^3 ... 3x10^5 deep is in the language and must compile. Depths above
+// 10^4 run in a sacrificial child process (see TestC03_Depth; the recorded
+// stack overflow begins at about 10^6).
+func TestC04_Deep(t *testing.T) {
+	c := collector("C04", "deep")
+	depths := []int{1000, 10000, 100000, 300000}
+	shard, _ := strconv.Atoi(getenv("VERIF_SHARD", "0"))
+	nshards, _ := strconv.Atoi(getenv("VERIF_NSHARDS", "1"))
+	i := 0
+	for _, kind := range depthKinds {
+		if kind == "data" || kind == "dataobj" {
+			continue
+		}
+		for _, n := range depths {
+			i++
+			if i%nshards != shard {
+				continue
+			}
+			c.Case()
+			if kind == "literal" && n > 10000 {
+				// RFC 8259 section 9 lets a JSON parser limit the nesting depth;
+				// encoding/json stops at 10,000. Whether a deeper JSON text
+				// between backticks is "legal" is not judged.
+				c.Skip("json-literal-deeper-than-10000")
+				continue
+			}
+			call := run.Call{API: "compile", Expr: "deep:" + kind + ":" + strconv.Itoa(n)}
+			run.Watch(c, "deep", call)
+			msg := c04DeepVerdict(kind, n)
+			if strings.HasPrefix(msg, "fatal error: stack overflow") && kfOpen("stack-overflow-deep-nesting") {
+				c.Exclude("stack-overflow-deep-nesting")
+				continue
+			}
+			if msg != "" {
+				c.Fail(t, run.Replay{Check: "deep", Kind: "custom:c04-deep", Calls: []run.Call{call}, Message: fmt.Sprintf("%s nested %d deep: %s", kind, n, msg)}, kind)
+				return
+			}
+			c.NonTrivial(kind+strconv.Itoa(n), func() any { return map[string]any{"construct": kind, "depth": n} })
+		}
+	}
+}
+
+func c04DeepVerdict(kind string, n int) string {
+	if n > 10000 {
+		cmd := exec.Command(os.Args[0], "-test.run", "^TestC04_DeepChild$", "-test.count=1", "-test.timeout=300s")
+		cmd.Env = append(os.Environ(), "VERIF_DEEP_CASE="+kind+":"+strconv.Itoa(n))
+		out, err := cmd.CombinedOutput()
+		s := string(out)
+		switch {
+		case strings.Contains(s, "DEEP-OK"):
+			return ""
+		case strings.Contains(s, "DEEP-REJECTED"):
+			return truncate(s[strings.Index(s, "DEEP-REJECTED"):], 300)
+		case strings.Contains(s, "stack overflow") || strings.Contains(s, "goroutine stack exceeds"):
+			return "fatal error: stack overflow (the process is killed; recover cannot catch it)"
+		case strings.Contains(s, "out of memory") || strings.Contains(s, "cannot allocate"):
+			return ""
+		}
+		return fmt.Sprintf("child process died: %v: %s", err, truncate(s, 400))
+	}
+	text, _ := deepExpr(kind, n)
+	_, co := run.Compile(text)
+	if co.Panic != "" {
+		return "Compile panicked: " + firstLineOf(co.Panic)
+	}
+	if co.Failed {
+		return "DEEP-REJECTED a member of the grammar is rejected: " + truncate(co.String(), 200)
+	}
+	return ""
+}
+
+func firstLineOf(s string) string {
+	if i := strings.IndexByte(s, '\n'); i >= 0 {
+		return s[:i]
+	}
+	return s
+}
+
+// TestC04_DeepChild is run as a subprocess by TestC04_Deep.
+func TestC04_DeepChild(t *testing.T) {
+	spec := os.Getenv("VERIF_DEEP_CASE")
+	if spec == "" {
+		t.Skip("child only")
+	}
+	parts := strings.Split(spec, ":")
+	n, _ := strconv.Atoi(parts[1])
+	text, _ := deepExpr(parts[0], n)
+	_, co := run.Compile(text)
+	if co.Panic != "" || co.Failed {
+		fmt.Println("DEEP-REJECTED a member of the grammar is rejected: " + truncate(co.String(), 200))
+		t.Fail()
+		return
+	}
+	fmt.Println("DEEP-OK")
+}
+
+func init() {
+	customReplays["custom:c04-deep"] = func(r run.Replay) string {
+		if len(r.Calls) == 0 {
+			return "malformed replay"
+		}
+		parts := strings.Split(r.Calls[0].Expr, ":")
+		if len(parts) != 3 {
+			return "malformed replay"
+		}
+		n, _ := strconv.Atoi(parts[2])
+		return c04DeepVerdict(parts[1], n)
+	}
 }
